@@ -58,6 +58,16 @@ def dual_plucker(p, q):
     return m
 
 
+def pow2_normalise(a):
+    """exact division by a power of two so that the largest modulus is in [0.5, 1) (the library's tolerances are absolute,
+    Pluecker coordinates are products of point coordinates and would otherwise leave the moderate range)"""
+    m = float(np.max(np.abs(a)))
+    if m == 0:
+        return a
+    _, e = np.frexp(m)
+    return a / (2.0 ** int(e))
+
+
 def args_exact(kind, base, coef):
     """-> list of exact argument descriptions: ('P', v) | ('H', v) | ('L', p, q)"""
     if kind in ("join_pp2", "join_pp3"):
@@ -145,8 +155,8 @@ def build_single(arg, sc, cplx, line_via):
         a = C.to_c(arg[1]) * s if cplx else np.array([float(x) for x in arg[1]]) * s
         return Line(a) if len(arg[1]) == 3 else Plane(a)
     m = dual_plucker(arg[1], arg[2])
-    a = C.to_c(m) * s if cplx else np.array([[float(x) for x in r] for r in m]) * s
-    return Line(a)
+    a = C.to_c(m) if cplx else np.array([[float(x) for x in r] for r in m])
+    return Line(pow2_normalise(a) * s)
 
 
 def build_coll(args_per_pos, sc, cplx, shape):
@@ -156,7 +166,7 @@ def build_coll(args_per_pos, sc, cplx, shape):
     if kind in "PH":
         a = np.array([C.to_c(a[1]) for a in args_per_pos]) * s
     else:
-        a = np.array([C.to_c(dual_plucker(a[1], a[2])) for a in args_per_pos]) * s
+        a = np.array([pow2_normalise(C.to_c(dual_plucker(a[1], a[2]))) for a in args_per_pos]) * s
     if not cplx:
         a = np.real(a)
     a = a.reshape(tuple(shape) + a.shape[1:])
